@@ -778,8 +778,14 @@ func (in *Interp) exec(fr *Frame, instr ssa.Instruction) ctl {
 	case *ssa.Slice:
 		fr.env[x] = in.sliceOp(fr, x)
 	case *ssa.MakeSlice:
-		n := in.concLen(in.get(fr, x.Len).(*term.Term), "makeslice len")
-		cp := in.concLen(in.get(fr, x.Cap).(*term.Term), "makeslice cap")
+		lenT, capT := in.get(fr, x.Len).(*term.Term), in.get(fr, x.Cap).(*term.Term)
+		// a symbolic length or capacity that may be negative: the values for which
+		// the runtime panics are a path of their own (a runtime panic), not a reason
+		// to give up; the non-negative rest is concretised as before
+		in.negativeLenPanics(lenT, "makeslice: len out of range")
+		in.negativeLenPanics(capT, "makeslice: cap out of range")
+		n := in.concLen(lenT, "makeslice len")
+		cp := in.concLen(capT, "makeslice cap")
 		if cp < n {
 			panic(in.runtimePanic("makeslice: cap out of range"))
 		}
@@ -947,6 +953,16 @@ func (in *Interp) concIndex(idx *term.Term, n int, signed bool) int {
 }
 
 // concLen concretises a length-like term (fork over small values).
+func (in *Interp) negativeLenPanics(t *term.Term, msg string) {
+	if t.IsConst() {
+		return
+	}
+	neg := term.SLt(t, term.BVC(t.Sort.W, 0))
+	if in.Eng.Fork([]*term.Term{neg, term.Not(neg)}, "neglen") == 0 {
+		panic(in.runtimePanic(msg))
+	}
+}
+
 func (in *Interp) concLen(t *term.Term, what string) int {
 	if t.IsConst() {
 		v := t.SignedVal()
